@@ -396,7 +396,130 @@ theorem numberBinary_sound : Sound numberBinary := by
         simp [Sem.zip?, Sem.scalar, broadcastShapes, broadcastShapes.go, allIdx, bcastIdx, hv]
   · cases h
 
+
+
+theorem numberUnary_sound : Sound numberUnary := by
+  intro t t' h
+  unfold numberUnary at h
+  split at h
+  · rename_i op a da
+    split at h
+    · cases h
+    · rename_i hop
+      simp only [Bool.or_eq_true, beq_iff_eq, not_or, Option.isSome_iff_ne_none, ne_eq, Decidable.not_not] at hop
+      cases hv : unop op.name a with
+      | none => simp [hv] at h
+      | some v =>
+        simp only [hv, Option.map_some, Option.some.injEq] at h
+        subst h
+        refine ⟨fun env => ?_, fun n hn => by simp [Term.fv] at hn⟩
+        have e : evalUnary op (Sem.scalar a) = (Sem.scalar a).map? (unop op.name) := by
+          unfold evalUnary
+          rw [hop.1.1]
+          dsimp only
+          split
+          · exact absurd (by assumption) hop.1.2
+          · exact absurd (by assumption) hop.2
+          · rfl
+        simp only [denote, Option.bind_some]
+        rw [e]
+        simp [Sem.map?, Sem.scalar, allIdx, hv]
+  · cases h
+
+/-! ### The algebraic core of `_reduce_unrelated_vars` on the value carrier -/
+
+/-- idempotent ops: folding n+1 copies of x gives x (max / min; `and` / `or` on booleans). -/
+theorem foldOp_replicate_idem (op : String) (x : XR) (h : binop op x x = some x) :
+    ∀ n, foldOp op (List.replicate (n + 1) x) = some x := by
+  intro n
+  simp only [List.replicate_succ, foldOp]
+  induction n with
+  | zero => rfl
+  | succ n ih => simp only [List.replicate_succ, List.foldlM_cons, h]; exact ih
+
+theorem xr_max_idem (x : XR) : binop "max" x x = some x := by
+  cases x <;> simp [binop, XR.max, XR.le]
+
+theorem xr_min_idem (x : XR) : binop "min" x x = some x := by
+  cases x <;> simp [binop, XR.min, XR.le]
+
+
+
+theorem foldlM_add_fin (q : Rat) : ∀ (j : Nat) (m : Rat),
+    List.foldlM (fun acc y => binop "add" acc y) (XR.fin (m * q)) (List.replicate j (XR.fin q))
+      = some (XR.fin ((m + (j : Rat)) * q))
+  | 0, m => by
+    have : m + ((0 : Nat) : Rat) = m := by simp [Rat.add_zero]
+    rw [this]; rfl
+  | j + 1, m => by
+    have hstep : binop "add" (XR.fin (m * q)) (XR.fin q) = some (XR.fin ((m + 1) * q)) := by
+      show some (XR.fin (m * q + q)) = _
+      have e : m * q + q = (m + 1) * q := by grind
+      rw [e]
+    simp only [List.replicate_succ, List.foldlM_cons, hstep, Option.bind_eq_bind, Option.bind_some,
+      foldlM_add_fin q j (m + 1)]
+    congr 2
+    have : ((j + 1 : Nat) : Rat) = (j : Rat) + 1 := by simp
+    rw [this]; grind
+
+/-- add: folding n+1 copies of a finite x gives (n+1)·x — the `PRODUCT_TO_POWER[add] = mul` scaling. -/
+theorem foldOp_replicate_add_fin (q : Rat) (n : Nat) :
+    foldOp "add" (List.replicate (n + 1) (XR.fin q)) = some (XR.mul (XR.fin ((n + 1 : Nat) : Rat)) (XR.fin q)) := by
+  simp only [List.replicate_succ, foldOp]
+  have h := foldlM_add_fin q n 1
+  simp only [Rat.one_mul] at h
+  rw [h]
+  simp only [XR.mul]
+  congr 2
+  have : ((n + 1 : Nat) : Rat) = (n : Rat) + 1 := by simp
+  rw [this]; grind
+
 /-! ### Coverage obligation over the generated registry -/
+
+/-- Model rules with a `Sound` theorem above (the rest of `ruleTable` is executable-only and tied to the code
+    by the harness: contractionDropUnits, contractionFlattenBin, contractionFuseSameRed, lambdaGetitem,
+    stackSelect, reduceUnrelated — their soundness needs unit/associativity laws of the broadcasting product or
+    the coincidence lemma for `denote`, not proved here). -/
+def provedRules : List (String × Rule) :=
+  [("binaryToContract", binaryToContract), ("reduceToContract", reduceToContract),
+   ("contractionNoVars", contractionNoVars), ("contractionSingleTerm", contractionSingleTerm),
+   ("contractionTrivial", contractionTrivial), ("contractionFlattenRed", contractionFlattenRed),
+   ("subsFuse", subsFuse), ("numberBinary", numberBinary), ("numberUnary", numberUnary)]
+
+theorem provedRules_sound : ∀ p ∈ provedRules, Sound p.2 := by
+  intro p hp
+  simp only [provedRules, List.mem_cons, List.not_mem_nil, or_false] at hp
+  rcases hp with rfl | rfl | rfl | rfl | rfl | rfl | rfl | rfl | rfl
+  · exact binaryToContract_sound
+  · exact reduceToContract_sound
+  · exact contractionNoVars_sound
+  · exact contractionSingleTerm_sound
+  · exact contractionTrivial_sound
+  · exact contractionFlattenRed_sound
+  · exact subsFuse_sound
+  · exact numberBinary_sound
+  · exact numberUnary_sound
+
+/-- The interpreter over all proved rules (in any priority order, any fuel) preserves every term's value. -/
+theorem interp_provedRules_sound (fuel : Nat) (t : Term) :
+    denote (interp (provedRules.map (·.2)) fuel t) = denote t := by
+  apply interp_sound
+  intro r hr
+  obtain ⟨p, hp, rfl⟩ := List.mem_map.mp hr
+  exact provedRules_sound p hp
+
+/-- Non-vacuity: the rules do fire — normalising `(2 + 3)` with the modelled normalize rules gives a Contraction,
+    and `eager_binary_number_number` evaluates it. -/
+example : (match interp normalizeRules 3
+      (Term.binary ⟨"add", Sexp.list []⟩ (Term.num 2 DType.real) (Term.num 3 DType.real)) with
+    | Term.contraction "null" "add" [] [Term.num _ _, Term.num _ _] => true
+    | _ => false) = true := by decide
+
+example : (numberBinary (Term.binary ⟨"add", Sexp.list []⟩ (Term.num 2 DType.real) (Term.num 3 DType.real))).isSome
+    = true := by decide
+
+example : (subsFuse (Term.subs (Term.subs (Term.var "x" ⟨DType.bint 2, []⟩) [("x", Term.var "y" ⟨DType.bint 2, []⟩)])
+    [("y", Term.num 1 (DType.bint 2))])).isSome = true := by decide
 
 /-- Registered rule functions with a Lean rule model (Model/C02.lean): name ↦ model rules. -/
 def modelled : List (String × List String) :=
